@@ -26,6 +26,58 @@ Proof.
   intro E. discriminate E.
 Qed.
 
+(* ---------------------------------------------------------------- messages built at end of input *)
+Lemma interp_literal_prefix :
+  forall pre rest args acc used, forallb (fun c => negb (c =? 37)) pre = true ->
+    interp (pre ++ rest) args acc used = interp rest args (rev pre ++ acc) used.
+Proof.
+  induction pre as [|a pre IH]; intros rest args acc used H; [reflexivity|].
+  simpl in H. apply andb_prop in H. destruct H as [Ha Hp].
+  apply negb_true_iff in Ha.
+  change ((a :: pre) ++ rest) with (a :: (pre ++ rest)).
+  change (interp (a :: (pre ++ rest)) args acc used)
+    with (if a =? 37
+          then match pre ++ rest with
+               | [] => FWild
+               | d :: r1 =>
+                   if d =? 37 then interp r1 args (37 :: acc) used
+                   else if d =? 115 then match args with AStr s :: a' => interp r1 a' (rev s ++ acc) (S used) | _ => FWild end
+                   else if d =? 100 then match args with AInt z :: a' => interp r1 a' (rev (dec z) ++ acc) (S used) | _ => FWild end
+                   else if d =? 108 then
+                     match r1 with
+                     | e :: r2 => if e =? 100 then match args with AInt z :: a' => interp r2 a' (rev (dec z) ++ acc) (S used) | _ => FWild end
+                                  else FWild
+                     | [] => FWild
+                     end
+                   else FWild
+               end
+          else interp (pre ++ rest) args (a :: acc) used).
+  rewrite Ha. rewrite IH by exact Hp. simpl. rewrite <- app_assoc. reflexivity.
+Qed.
+
+Lemma null_err_text :
+  forall msg args text u, interp msg args [] 0 = FOk text u -> null_err msg args = EMsg text.
+Proof.
+  intros msg args text u H. unfold null_err. rewrite H. unfold mps_error_fixed.
+  change (str "%s") with [37; 115]. simpl. rewrite app_nil_r, rev_involutive. reflexivity.
+Qed.
+
+(* "<literal text>%d" with its int argument *)
+Lemma null_err_d :
+  forall pre d, forallb (fun c => negb (c =? 37)) pre = true ->
+    null_err (pre ++ str "%d") [AInt d] = EMsg (pre ++ dec d).
+Proof.
+  intros pre d H. eapply null_err_text. rewrite interp_literal_prefix by exact H.
+  change (str "%d") with [37; 100]. simpl. rewrite app_nil_r, rev_app_distr, !rev_involutive. reflexivity.
+Qed.
+
+Lemma null_err_d_nonempty :
+  forall pre d, forallb (fun c => negb (c =? 37)) pre = true -> pre <> [] ->
+    emsg_nonempty (null_err (pre ++ str "%d") [AInt d]).
+Proof.
+  intros pre d H Hn. rewrite null_err_d by exact H. simpl. destruct pre; [congruence|discriminate].
+Qed.
+
 Lemma skip_line_fixed_len :
   forall fuel s r, skip_line_fixed fuel s = Done r -> (List.length r <= List.length s)%nat.
 Proof.
@@ -227,10 +279,10 @@ Section Total.
 
   (* ---------------------------------------------------------------- one token *)
   Lemma expect_f_at_good :
-    forall inr msg b M, INV b M -> emsg_nonempty (plain_err msg) -> (inr = false -> chk = false) ->
-    sgood (fun _ b' => INV b' (M - 1)) (expect_f_at gmpf B inr msg b).
+    forall inr msg args b M, INV b M -> emsg_nonempty (null_err msg args) -> (inr = false -> chk = false) ->
+    sgood (fun _ b' => INV b' (M - 1)) (expect_f_at gmpf B inr msg args b).
   Proof.
-    intros inr msg b M HI Hm Hc. unfold expect_f_at. eapply tok_bind_good; eauto.
+    intros inr msg args b M HI Hm Hc. unfold expect_f_at. eapply tok_bind_good; eauto.
     intros [tok|] b1 T; simpl.
     - destruct inr; simpl.
       + destruct (gmpf tok); simpl; auto. split; [eapply Inv_lok; eauto|].
@@ -242,10 +294,10 @@ Section Total.
   Definition qfrom (q : Z * Z) : Prop := exists t, gmpq t = Some q.
 
   Lemma expect_q_at_good :
-    forall inr msg b M, INV b M -> emsg_nonempty (plain_err msg) -> (inr = false -> chk = false) ->
-    sgood (fun q b' => INV b' (M - 1) /\ qfrom q) (expect_q_at gmpq B inr msg b).
+    forall inr msg args b M, INV b M -> emsg_nonempty (null_err msg args) -> (inr = false -> chk = false) ->
+    sgood (fun q b' => INV b' (M - 1) /\ qfrom q) (expect_q_at gmpq B inr msg args b).
   Proof.
-    intros inr msg b M HI Hm Hc. unfold expect_q_at. eapply tok_bind_good; eauto.
+    intros inr msg args b M HI Hm Hc. unfold expect_q_at. eapply tok_bind_good; eauto.
     intros [tok|] b1 T; simpl.
     - destruct inr; simpl.
       + destruct (gmpq tok) as [q|] eqn:E; simpl.
@@ -262,23 +314,23 @@ Section Total.
   Qed.
 
   Lemma expect_qc_at_good :
-    forall inr msg b M, INV b M -> emsg_nonempty (plain_err msg) -> (inr = false -> chk = false) ->
-    sgood (fun _ b' => INV b' (M - 1)) (expect_qc_at gmpq B inr msg b).
+    forall inr msg args b M, INV b M -> emsg_nonempty (null_err msg args) -> (inr = false -> chk = false) ->
+    sgood (fun _ b' => INV b' (M - 1)) (expect_qc_at gmpq B inr msg args b).
   Proof.
-    intros inr msg b M HI Hm Hc. unfold expect_qc_at.
+    intros inr msg args b M HI Hm Hc. unfold expect_qc_at.
     eapply sgood_bind; [apply expect_q_at_good; eauto|].
     intros q b1 [H1 H2]. apply canon_good; auto.
   Qed.
 
   Lemma coef_at_good :
-    forall inr k cplx m1 m2 b M,
-      INV b M -> emsg_nonempty (plain_err m1) -> emsg_nonempty (plain_err m2) -> (inr = false -> chk = false) ->
-      sgood (Lt M unit) (coef_at gmpf gmpq B inr k cplx m1 m2 b).
+    forall inr k cplx m1 a1 m2 a2 b M,
+      INV b M -> emsg_nonempty (null_err m1 a1) -> emsg_nonempty (null_err m2 a2) -> (inr = false -> chk = false) ->
+      sgood (Lt M unit) (coef_at gmpf gmpq B inr k cplx m1 a1 m2 a2 b).
   Proof.
-    intros inr k cplx m1 m2 b M HI H1 H2 Hc. unfold coef_at.
+    intros inr k cplx m1 a1 m2 a2 b M HI H1 H2 Hc. unfold coef_at.
     assert (Hq : sgood (Lt M unit)
-                   (sbind (expect_qc_at gmpq B inr m1 b)
-                          (fun _ b1 => if cplx then expect_qc_at gmpq B inr m2 b1 else SOk tt b1))).
+                   (sbind (expect_qc_at gmpq B inr m1 a1 b)
+                          (fun _ b1 => if cplx then expect_qc_at gmpq B inr m2 a2 b1 else SOk tt b1))).
     { eapply sgood_bind; [apply expect_qc_at_good; eauto|].
       intros ? b1 K; cbv beta in K. destruct cplx.
       - eapply sgood_mono; [apply expect_qc_at_good; eauto|].
@@ -294,7 +346,7 @@ Section Total.
 
   Lemma coef_good :
     forall k cplx m1 m2 b M,
-      INV b M -> emsg_nonempty (plain_err m1) -> emsg_nonempty (plain_err m2) ->
+      INV b M -> emsg_nonempty (null_err m1 []) -> emsg_nonempty (null_err m2 []) ->
       sgood (Lt M unit) (coef gmpf gmpq B k cplx m1 m2 b).
   Proof. intros. unfold coef. apply coef_at_good; auto. discriminate. Qed.
 
@@ -353,7 +405,7 @@ Section Total.
     intros n cf Hcf tok sp b M HI. unfold sparse_body.
     assert (He : forall msg, sgood (Le M (list Z)) (SErr (tok_err b tok msg) b)).
     { intro msg. simpl. split; [eapply Inv_lok; eauto|]. apply tok_err_nonempty. eapply Inv_lnum; eauto. }
-    destruct (sscanf_d tok) as [i|]; [|apply He].
+    destruct (parse_long tok long_min long_max) as [i|]; [|apply He].
     destruct ((i <? 0) || (n <? i)); [apply He|].
     destruct (seen i sp); [apply He|].
     eapply sgood_bind; [apply Hcf; eauto|].
@@ -407,7 +459,8 @@ Section Total.
     { intro E. rewrite E in Ec. simpl in Ec. destruct chk; auto. }
     assert (Hw : forall s, sgood (Lt M unit) s -> sgood (Le M unit) s).
     { intros s Hs. eapply sgood_mono; [exact Hs|]. intros ? b1 HQ_; cbv beta in HQ_; destruct HQ_ as [M1 [L1 I1]]. exists M1. split; [lia|auto]. }
-    destruct (o_kind o); apply Hw; apply coef_at_good; auto; msg_ok.
+    destruct (o_kind o); apply Hw; apply coef_at_good; auto;
+      first [ apply null_err_d_nonempty; [vm_compute; reflexivity|vm_compute; discriminate] | msg_ok ].
   Qed.
 
   Lemma read_chebyshev_good :
@@ -479,14 +532,13 @@ Section Total.
     eapply tok_bind_good; eauto. intros t2 b2 T2.
     assert (I2 : INV b2 (M - 1)).
     { destruct t2; auto. eapply Inv_le; eauto; [lia|]. destruct T1 as [_ [_ [T1 _]]]. lia. }
-    destruct (match t2 with Some tk => sscanf_ld tk | None => None end) as [pr|];
+    destruct (match t2 with Some tk => parse_long tk long_min (long_max / 4) | None => None end) as [pr|];
       [|eapply plain_good; eauto; msg_ok].
     eapply tok_bind_good; eauto. intros t3 b3 T3.
     assert (I3 : INV b3 (M - 1)).
     { destruct t3; auto. eapply Inv_le; eauto; [lia|]. destruct I2 as [_ [_ [I2 _]]]. lia. }
-    destruct (match t3 with Some tk => sscanf_d tk | None => None end) as [n|];
+    destruct (match t3 with Some tk => parse_long tk 0 (int_max - 1) | None => None end) as [n|];
       [|eapply plain_good; eauto; msg_ok].
-    destruct (n <? 0); [eapply plain_good; eauto; msg_ok|].
     destruct (nth 0 (firstn 3 tok) 0 =? 117); [simpl; unfold QF; eapply Inv_lok; eauto|].
     pose proof (add_work_inv b3 (n + 1) _ I3) as I4.
     destruct (nth 0 (firstn 3 tok) 0 =? 100).
@@ -546,9 +598,11 @@ Section Total.
       assert (Hv : v = None -> fl <> FDegree /\ fl <> FPrecision) by (intro; subst v; eapply classify_fixed_value; eauto).
       destruct fl; try (apply IH; auto).
       + destruct v as [val|]; [|exfalso; destruct (Hv eq_refl) as [Hv1 Hv2]; congruence].
-        destruct (atoi val <=? 0); [eapply plain_good; eauto; msg_ok|apply IH; auto].
+        destruct (match parse_long val _ _ with Some v => v | None => 0 end <=? 0);
+          [eapply plain_good; eauto; msg_ok|apply IH; auto].
       + destruct v as [val|]; [|exfalso; destruct (Hv eq_refl) as [Hv1 Hv2]; congruence].
-        destruct (mul_log2_10 (atoi val) <=? 0); [eapply plain_good; eauto; msg_ok|apply IH; auto].
+        destruct (mul_log2_10 _ <=? 0);
+          [eapply plain_good; eauto; msg_ok|apply IH; auto].
   Qed.
 
   (* ---------------------------------------------------------------- entry points *)
